@@ -551,7 +551,7 @@ func (c *VCtx) applyContract(fr *Frame, st *State, cc *ssa.CallCommon, ct *FuncC
 			}
 		}
 		for k, srt := range c.heapSorts {
-			if strings.HasPrefix(k, "G:writes:") || k == "G:calls" || strings.HasPrefix(k, "G:lm.") {
+			if strings.HasPrefix(k, "G:writes:") || k == "G:calls" || strings.HasPrefix(k, "G:lm.") || strings.HasPrefix(k, "G:visited:") || k == "G:itermap" {
 				// bookkeeping of what THIS invocation has written / called (a callee's accesses are not mine) and the
 				// ghost variables of a local monitor (no other function can name them)
 				foreign[k] = c.heap(st, k, srt)
